@@ -25,6 +25,7 @@ type c10Stream struct {
 	first  int   // first run index of this stream
 	truncs []int // enumerated truncation lengths
 	subPos []int // enumerated substitution positions
+	hdrPos []int // member-header positions that get all 255 values (quick tier)
 	big    bool
 }
 
@@ -169,7 +170,17 @@ func (p *c10) stream(i int) *c10Stream {
 				}
 			}
 		}
-		s.count = len(s.truncs) + len(s.subPos)*s.nval
+		// bytes of member headers get every value also in the quick tier: a
+		// single altered length/flag byte is what turns corruption into a
+		// "valid" shorter stream
+		if s.nval < 255 {
+			for _, m := range s.flat.Members {
+				for d := 0; d < 18; d++ {
+					s.hdrPos = append(s.hdrPos, int(m.Off)+d)
+				}
+			}
+		}
+		s.count = len(s.truncs) + len(s.subPos)*s.nval + len(s.hdrPos)*255
 		if j > 0 {
 			s.first = p.streams[j-1].first + p.streams[j-1].count
 		}
@@ -198,6 +209,15 @@ func (p *c10) Gen(t *Tape, tier string, run int) interface{} {
 		return c
 	}
 	k -= len(s.truncs)
+	if k >= len(s.subPos)*s.nval {
+		k -= len(s.subPos) * s.nval
+		c.Pos = s.hdrPos[k/255]
+		c.Val = k % 255
+		if c.Val >= int(s.img[c.Pos]) {
+			c.Val++
+		}
+		return c
+	}
 	c.Pos = s.subPos[k/s.nval]
 	v := k % s.nval
 	orig := int(s.img[c.Pos])
